@@ -64,7 +64,7 @@ def latmio_dir_connected(R, itr, D=None, seed=None):
     D = np.asarray(D, dtype=float)  # weight x distance must not wrap in a narrow integer type
     i, j = np.where(R)
     k = len(i)
-    itr *= k
+    itr = itr * k
 
     # maximal number of rewiring attempts per iteration
     max_attempts = np.round(n * k / (n * (n - 1)))
@@ -193,7 +193,7 @@ def latmio_dir(R, itr, D=None, seed=None):
     D = np.asarray(D, dtype=float)  # weight x distance must not wrap in a narrow integer type
     i, j = np.where(R)
     k = len(i)
-    itr *= k
+    itr = itr * k
 
     # maximal number of rewiring attempts per iteration
     max_attempts = np.round(n * k / (n * (n - 1)))
@@ -305,7 +305,7 @@ def latmio_und_connected(R, itr, D=None, seed=None):
     D = np.asarray(D, dtype=float)  # weight x distance must not wrap in a narrow integer type
     i, j = np.where(np.tril(R))
     k = len(i)
-    itr *= k
+    itr = itr * k
 
     # maximal number of rewiring attempts per iteration
     max_attempts = np.round(n * k / (n * (n - 1) / 2))
@@ -441,7 +441,7 @@ def latmio_und(R, itr, D=None, seed=None):
     D = np.asarray(D, dtype=float)  # weight x distance must not wrap in a narrow integer type
     i, j = np.where(np.tril(R))
     k = len(i)
-    itr *= k
+    itr = itr * k
 
     # maximal number of rewiring attempts per iteration
     max_attempts = np.round(n * k / (n * (n - 1) / 2))
@@ -1187,7 +1187,7 @@ def randmio_dir_connected(R, itr, seed=None):
     n = len(R)
     i, j = np.where(R)
     k = len(i)
-    itr *= k
+    itr = itr * k
 
     max_attempts = np.round(n * k / (n * (n - 1)))
     eff = 0
@@ -1284,7 +1284,7 @@ def randmio_dir(R, itr, seed=None):
     n = len(R)
     i, j = np.where(R)
     k = len(i)
-    itr *= k
+    itr = itr * k
 
     max_attempts = np.round(n * k / (n * (n - 1)))
     eff = 0
@@ -1372,7 +1372,7 @@ def randmio_und_connected(R, itr, seed=None):
     n = len(R)
     i, j = np.where(np.tril(R))
     k = len(i)
-    itr *= k
+    itr = itr * k
 
     # maximum number of rewiring attempts per iteration
     max_attempts = np.round(n * k / (n * (n - 1)))
@@ -1482,7 +1482,7 @@ def randmio_dir_signed(R, itr, seed=None):
     R = R.copy()
     n = len(R)
 
-    itr *= n * (n - 1)
+    itr = itr * n * (n - 1)
 
     #maximal number of rewiring attempts per iter
     max_attempts = n
@@ -1565,7 +1565,7 @@ def randmio_und(R, itr, seed=None):
     n = len(R)
     i, j = np.where(np.tril(R))
     k = len(i)
-    itr *= k
+    itr = itr * k
 
     # maximum number of rewiring attempts per iteration
     max_attempts = np.round(n * k / (n * (n - 1)))
@@ -1650,7 +1650,7 @@ def randmio_und_signed(R, itr, seed=None):
     R = R.copy()
     n = len(R)
 
-    itr *= int(n * (n -1) / 2)
+    itr = itr * int(n * (n - 1) / 2)
 
     max_attempts = int(np.round(n / 2))
     eff = 0
